@@ -39,13 +39,13 @@ def generate(rng, tier):
     case = gen.gen_case(rng, {
         "p_info": 0.0, "p_demux": 0.12, "p_minimal_report": 0.0, "json": False, "p_stdout": 0.0,
         "in_containers": ("",), "out_containers": ("",), "fastq": True, "p_interleaved_out": 0.0,
-        "n_records": (0, 30), "p_interleaved_redirect": 0.0, "p_huge": 0.02, "p_quiet": 0.04, "p_debug": 0.03,
+        "n_records": (0, 30), "p_interleaved_redirect": 0.0, "p_huge": 0.02, "p_giant": 0.008, "p_quiet": 0.04, "p_debug": 0.03,
     })
     case["input"]["layout"] = "two" if case["paired"] else "single"
     case["input"]["containers"] = [""] * (2 if case["paired"] else 1)
     case["input"]["members"] = [1] * (2 if case["paired"] else 1)
     case["outs"] = [g for g in case["outs"] if g[0] != "--interleaved"]
-    case["n_variants"] = rng.randint(4, 7) if case["meta"].get("big") != 2 else 7
+    case["n_variants"] = rng.randint(4, 7) if case["meta"].get("big") not in (2, 3) else 7
     case["variant_seed"] = rng.randrange(1 << 40)
     return case
 
@@ -90,7 +90,7 @@ def make_variant(base, rng, reference=False):
     if not reference and paired and rng.random() < 0.45:
         layout = "interleaved"
     cores = 1
-    huge = base["meta"].get("big") == 2  # size-dependent paths of the multi-core writers: more such variants
+    huge = base["meta"].get("big") in (2, 3)  # size-dependent paths of the multi-core writers: more such variants
     if not reference and rng.random() < (0.8 if huge else 0.5):
         cores = base["knobs"]["workers"]
     nfiles = 2 if layout == "two" else 1
